@@ -71,6 +71,21 @@ def unproj(t):
     return None
 
 
+def attr_of(ev, obj, name, st):
+    """Value of obj.<name> as the program sees it (instance field, class attribute or property),
+    when it is the same on every path; else None."""
+    mark = len(ev.raised)
+    try:
+        outs = ev.getattr(obj, name, st.fork())
+    except AnalysisError:
+        outs = []
+    del ev.raised[mark:]
+    vals = {}
+    for _, v in outs:
+        vals[v._key] = v
+    return list(vals.values())[0] if len(vals) == 1 else None
+
+
 def func_by_qual(world, qual):
     for (m, q, node) in world.functions():
         if m.name + "." + q == qual:
@@ -262,6 +277,86 @@ def ladder_info(world, ev, f, extra=()):
     return sorted(set(called))
 
 
+def is_ladder_function(world, ev, f):
+    """A scalar-multiplication ladder: a self-recursive function, or a function with one loop that
+    calls a doubling formula (iterative double-and-add).  That it computes n*P is C13's G6."""
+    k = ev.policy.classify(f)
+    if k == "recursive":
+        return True
+    if k != "loop" or isinstance(f.node, ast.Lambda) or len(f.node.args.args) < 2:
+        return False
+    forms = formula_functions(world, ev)
+    doubles = {q for q, v in forms.items() if v.get("kind") == "double"}
+    return bool(set(ladder_info(world, ev, f)) & doubles) and \
+        sum(1 for n in ast.walk(f.node) if isinstance(n, (ast.For, ast.While))) == 1
+
+
+_DIG_CACHE = {}
+
+
+def msb_digits_function_ok(world, ev, g):
+    """Does g(n) return the binary digits of n >= 0, most significant first, as a list of ints
+    (n = 0 gives the empty list)?  Recognised form: peel the low bit off a remainder into a list
+    until the remainder is zero, then reverse - proved by induction over one symbolic iteration:
+    with L the digits so far (least significant first) and r the remainder, n = r * 2^len(L) + value(L)
+    is kept by  L' = L + [r & 1], r' = r >> 1;  the loop ends exactly when r = 0."""
+    from .evalr import Ev
+    key = (id(world), g.qual)
+    if key in _DIG_CACHE:
+        return _DIG_CACHE[key]
+    _DIG_CACHE[key] = (False, "not a digit function")
+    if isinstance(g.node, ast.Lambda) or len(g.node.args.args) != 1:
+        return _DIG_CACHE[key]
+    e2 = Ev(world, loop_mode="once")
+    e2.import_all()
+    e2.policy.force_inline.add(g.qual)
+    n = Sym("n", "int")
+    try:
+        outs = e2.run(g, [n], [], world.static.fork())
+    except AnalysisError as e:
+        _DIG_CACHE[key] = (False, str(e))
+        return _DIG_CACHE[key]
+    if len(e2.loop_entries) != 1 or any(o.kind != "return" for o in outs):
+        _DIG_CACHE[key] = (False, "not one loop / can raise")
+        return _DIG_CACHE[key]
+    carried = e2.loop_entries[0][1]
+    lists = [k for k, v in carried.items() if isinstance(v, TupleV) and v.kind == "list" and not v.items]
+    rems = [k for k, v in carried.items() if v == n]
+    if len(carried) != 2 or len(lists) != 1 or len(rems) != 1:
+        _DIG_CACHE[key] = (False, "loop does not carry exactly an initially empty list and a remainder starting at n: %s" % sorted(carried))
+        return _DIG_CACHE[key]
+    L, r = lists[0], rems[0]
+    rL = TupleV([App("star", (Sym("loop:" + L, "list"),))], "list")
+    rr = Sym("loop:" + r, "int")
+    nonzero = lambda conds, t, want: (t, want) in conds or (mk_app("NotEq", (t, Const(0))), want) in conds or \
+        (mk_app("Eq", (t, Const(0))), not want) in conds or (mk_app("Lt", (Const(0), t)), want) in conds
+    why = None
+    if not e2.continues:
+        why = "no way round the loop"
+    for p in e2.continues:
+        conds = {(t, pol) for (t, pol, _) in p.st.pc}
+        nl, nr = p.val["locals"].get(L), p.val["locals"].get(r)
+        okl = isinstance(nl, TupleV) and len(nl.items) == 2 and nl.items[0] == rL.items[0] and \
+            nl.items[1] in (mk_app("BitAnd", (rr, Const(1))), mk_app("Mod", (rr, Const(2))))
+        okr = nr in (mk_app("RShift", (rr, Const(1))), mk_app("FloorDiv", (rr, Const(2))))
+        if not (okl and okr and nonzero(conds, rr, True)):
+            why = "an iteration is not  L.append(r & 1); r >>= 1  under r != 0"
+    exits = 0
+    for o in outs:
+        conds = {(t, pol) for (t, pol, _) in o.state.pc}
+        v = o.value
+        if isinstance(v, TupleV) and not v.items and nonzero(conds, n, False):
+            continue                                   # n = 0: no digits
+        if v == mk_app("rev", (rL,)) and nonzero(conds, rr, False):
+            exits += 1
+            continue
+        why = why or "a return value is not the reversed digit list at remainder 0: %s" % show(v, maxdepth=4)
+    if why is None and exits == 0:
+        why = "the digit list is never returned"
+    _DIG_CACHE[key] = (why is None, why or "peels n & 1 into a list while n != 0 and returns it reversed: the binary digits of n, most significant first")
+    return _DIG_CACHE[key]
+
+
 def ladder_call(world, ev, c):
     """c = fn:<ladder>(point, scalar[, function arguments]) -> dict(func, pt, n, extra, uses) or None.
     A ladder is a self-recursive package function; parameters after the first two must be bound
@@ -269,7 +364,7 @@ def ladder_call(world, ev, c):
     if not (isinstance(c, App) and c.f.startswith("fn:") and len(c.args) >= 2 and not c.kw):
         return None
     f = func_by_qual(world, c.f[3:])
-    if f is None or ev.policy.classify(f) != "recursive" or len(f.node.args.args) != len(c.args):
+    if f is None or not is_ladder_function(world, ev, f) or len(f.node.args.args) != len(c.args):
         return None
     extra = tuple(c.args[2:])
     if not all(isinstance(a, FuncV) for a in extra):
@@ -283,7 +378,7 @@ def ladder_instances(world, ev, m):
     distinct tuple of package functions passed to it from outside itself."""
     out = []
     for name, f in sorted(m.env.items()):
-        if not isinstance(f, FuncV) or isinstance(f.node, ast.Lambda) or ev.policy.classify(f) != "recursive":
+        if not isinstance(f, FuncV) or isinstance(f.node, ast.Lambda) or not is_ladder_function(world, ev, f):
             continue
         np_ = len(f.node.args.args)
         if np_ == 2:
@@ -320,6 +415,8 @@ def _truth_paths(world, f, arg):
             return None
         conds = {(t, p) for (t, p, _) in o.state.pc[base:]}
         v = o.value
+        while is_app(v, "bool") and len(v.args) == 1:
+            v = v.args[0]
         if v == Const(True):
             res.append(conds)
         elif v == Const(False):
@@ -434,6 +531,15 @@ def sqrt_helper_ok(world, ev, f):
     dn, d = curve_d(world, ev)
     pol = Policy(world)
     pol.force_inline.add(f.qual)
+    work = [f]
+    while work:                       # helpers of the root function (e.g. an even-root normaliser) are inlined too
+        g = work.pop()
+        for n in ast.walk(g.node):
+            if isinstance(n, ast.Call) and isinstance(n.func, ast.Name):
+                v = world.static_lookup(g.mod, n.func.id)
+                if isinstance(v, FuncV) and v.qual not in pol.force_inline and pol.classify(v) in ("leaf", "inline"):
+                    pol.force_inline.add(v.qual)
+                    work.append(v)
     e2 = Ev(world, policy=pol)
     y = Sym("y", "int")
     outs = e2.run(f, [y], [], world.static.fork())
